@@ -36,6 +36,11 @@ type Program struct {
 	chaCG   *callgraph.Graph
 	allFns  map[*ssa.Function]bool
 	fnIndex map[string]*ssa.Function
+
+	inlined    map[*ssa.Function]*ssa.Function   // original -> inlined clone
+	inlinedOf  map[*ssa.Function]*ssa.Function   // clone -> original
+	regionOf   map[*ssa.Function][]*ssa.Function // functions expanded into the clone
+	inlRegions map[*ssa.Function][]*InlRegion
 }
 
 // Load type-checks ./... in repoDir (tests excluded) and builds SSA for the whole program.
@@ -94,6 +99,9 @@ func Load(repoDir string) (*Program, error) {
 		p.SSAPkgs[sp.Pkg.Path()] = sp
 	}
 	p.LoadTime = time.Since(start)
+	if err := selfTestInline(); err != nil {
+		return nil, fmt.Errorf("go/ssa layout self-test failed: %v", err)
+	}
 	return p, nil
 }
 
